@@ -40,7 +40,8 @@ class ScaleSim(Sim):
     PROBES = ["chain_depth_ge_10000", "chain_depth_ge_40000", "recursion_limit_400", "recursion_limit_3000", "fanout_ge_5000", "ladder_ge_2000",
               "untracked_no_grad_loop", "untracked_nograd_operands_loop", "untracked_interleaved_with_tracked", "work_scaling_measured",
               "gc_during_build", "chain_with_view_ops", "same_operand_twice_in_chain", "chain_two_sweeps", "chain_retain_ctx", "chain_retain_every",
-              "untracked_body_mul_param_add_param", "untracked_body_functional", "untracked_body_linear", "untracked_body_views", "untracked_body_unbind", "detached_loop_bptt", "detached_loop_log", "fault_mid_deep_sweep_then_retry"]
+              "untracked_body_mul_param_add_param", "untracked_body_functional", "untracked_body_linear", "untracked_body_views", "untracked_body_unbind", "detached_loop_bptt", "detached_loop_log", "fault_mid_deep_sweep_then_retry",
+              "unrelated_sweeps_between_deep_sweeps", "untracked_loop_inside_retain_grads", "nested_no_grad_left_by_exception_in_loop"]
     RULE = ("one run = 1-3 large scenarios (deep chain / wide fan-out / diamond ladder / untracked loop / work-scaling pair) with seeded sizes, op "
             "patterns, recursion-limit knob and gc schedule; distinct = scenario family x size bucket x recursion limit; non-trivial = every run")
     ASSUMPTIONS = ["cost is judged on deterministic work counters (line events in tensor.py, Tensor.__eq__/__hash__ calls), not on time: "
@@ -64,7 +65,8 @@ class ScaleSim(Sim):
             if kn["big"]:
                 depth = rng.choice([100000, 200000])
             return {"k": "chain", "depth": depth, "seed": rng.randrange(10 ** 6), "views": rng.random() < 0.4, "gc_every": rng.choice([0, 0, 5000]),
-                    "limit": kn["limit"], "retain": rng.choice(["none", "none", "some", "ctx", "every"]), "sweeps": rng.choice([1, 1, 2]),
+                    "limit": kn["limit"], "retain": rng.choice(["none", "none", "some", "ctx", "every"]), "sweeps": rng.choice([1, 1, 2, 2, 3]),
+                    "others_between": rng.choice([0, 0, 1, 1, 2, 3]),
                     "fault": ({"kind": rng.choice(["alloc", "interrupt", "exit"]), "at": rng.randint(1, max(1, depth - 1))} if rng.random() < 0.3 else None)}
         if fam == "fanout":
             return {"k": "fanout", "n": rng.choice([1000, 3000, 6000, 10000]), "limit": kn["limit"]}
@@ -75,7 +77,8 @@ class ScaleSim(Sim):
                 return {"k": "detached", "n": rng.choice([300, 1000, 3000]), "pattern": rng.choice(["bptt", "log", "numpy_roundtrip"]), "limit": kn["limit"]}
             return {"k": "untracked", "n": rng.choice([10000, 30000, 100000]), "mode": rng.choice(["no_grad", "nograd_operands"]),
                     "body": rng.choice(["scale_add", "mul_param_add_param", "functional", "linear", "views", "unbind"]),
-                    "tracked_every": rng.choice([0, 0, 2500]), "limit": kn["limit"]}
+                    "tracked_every": rng.choice([0, 0, 2500]), "limit": kn["limit"],
+                    "retain_ctx": rng.random() < 0.3, "nested_exc_every": rng.choice([0, 0, 3000])}
         return {"k": "work", "n": rng.choice([400, 800]), "shape": rng.choice(["chain", "ladder", "fanin", "fanout"])}
 
     def _preflight(self, st):
@@ -198,8 +201,21 @@ class ScaleSim(Sim):
                 pass
             SEAM.disarm()
             x.zero_()
+        def others():
+            # another user differentiates unrelated small graphs between two sweeps over the deep one
+            for j in range(ev.get("others_between", 0)):
+                o = SG.Tensor(np.array([1.0, 2.0]), requires_grad=True)
+                with quiet():
+                    ((o * 2.0 + 1.0) * o).sum().backward()
+                if not np.array_equal(np.asarray(o.grad.data, dtype=np.float64), np.array([5.0, 9.0])):
+                    st.fail("C17.deep_gradient", "a small unrelated graph differentiated between two sweeps over the deep chain got a wrong gradient")
+                st.probes["unrelated_sweeps_between_deep_sweeps"] += 1
+        if fault:
+            others()
         try:
             for sweep in range(sweeps):
+                if sweep:
+                    others()
                 # (a second sweep over the same deep graph crosses the gradients the first one retained)
                 self._backward_checked(st, cur, g, len(created), f"chain of {depth} sequential operations (retain={retain}, sweep {sweep + 1} of {sweeps})")
         finally:
@@ -293,11 +309,27 @@ class ScaleSim(Sim):
         checked = 0
         ctx = SG.sg.no_grad() if mode == "no_grad" else None
         st.probes["untracked_no_grad_loop" if mode == "no_grad" else "untracked_nograd_operands_loop"] += 1
+        rctx = SG.sg.retain_grads() if ev.get("retain_ctx") else None
+        if rctx is not None:
+            rctx.__enter__()          # a debugging session wrapped around the whole program
+            st.probes["untracked_loop_inside_retain_grads"] += 1
         if ctx is not None:
             ctx.__enter__()
+        nee = ev.get("nested_exc_every", 0)
+        caught = []
         try:
             with quiet():
                 for i in range(n):
+                    if nee and i % nee == 5:
+                        # a helper with its own no_grad block fails; the caller catches the error and carries on
+                        try:
+                            with SG.sg.no_grad():
+                                with SG.sg.no_grad():
+                                    SG.sg.linear(x.reshape((1, 2)), SG.Tensor(np.ones((3, 5))), None)
+                        except Exception as e:
+                            caught.append(e)
+                            del caught[:-2]
+                        st.probes["nested_no_grad_left_by_exception_in_loop"] += 1
                     x = step(x)
                     if x.requires_grad:
                         st.fail("C17.untracked_keeps_history", f"step {i}: a result computed while gradients are not tracked requires grad")
@@ -322,6 +354,9 @@ class ScaleSim(Sim):
         finally:
             if ctx is not None:
                 ctx.__exit__(None, None, None)
+            if rctx is not None:
+                rctx.__exit__(None, None, None)
+        del caught
         gc.collect()
         live = sum(1 for o in gc.get_objects() if isinstance(o, SG.Tensor))
         if live - base_live > 40:
